@@ -349,7 +349,7 @@ def run_check(prop, tier, verif_seed, procs=None, out_evidence=True, max_runs=No
         case = r['case']
         mcase, used = minimise_case(eng, case, v, seconds=plan.get('min_s', 45))
         out = eng.execute(copy.deepcopy(mcase))
-        mv = [x for x in out['violations'] if x['class'] == v['class'] and x['property'] == v['property']]
+        mv = [x for x in out['violations'] if x['class'] == v['class'] and x['property'] == v['property'] and x.get('signature') == v.get('signature')]
         if not mv:   # minimisation lost it (should not happen): fall back
             mcase = case
             out = eng.execute(copy.deepcopy(mcase))
@@ -372,6 +372,9 @@ def run_check(prop, tier, verif_seed, procs=None, out_evidence=True, max_runs=No
         exit_code = 1
     if len(new_groups) > 4:
         lines.append(f'  (+{len(new_groups) - 4} further violation groups not minimised)')
+    if os.environ.get('VERIF_VERBOSE'):
+        for key, items in new_groups:
+            lines.append(f'  group {key} runs={len(items)} e.g. seed={items[0][0]["seed"]} {json.dumps(items[0][1].get("detail"), sort_keys=True)[:300]}')
 
     # ---- reach gate
     missing = [p for p in getattr(eng, 'REQUIRED_PROBES', []) if probes.get(p, 0) == 0]
@@ -429,7 +432,8 @@ def run_check(prop, tier, verif_seed, procs=None, out_evidence=True, max_runs=No
 def minimise_case(eng, case, v, seconds=45):
     def still(c):
         out = eng.execute(copy.deepcopy(c))
-        return any(x['class'] == v['class'] and x['property'] == v['property'] for x in out.get('violations', []))
+        return any(x['class'] == v['class'] and x['property'] == v['property'] and x.get('signature') == v.get('signature')
+                   for x in out.get('violations', []))
     lp = getattr(eng, 'LIST_PATHS', ())
     if callable(lp):
         lp = lp(case)
